@@ -2,6 +2,7 @@ package harness
 
 import (
 	"context"
+	"errors"
 	"encoding/json"
 	"fmt"
 	"math"
@@ -596,7 +597,19 @@ func checkPlan(call planCall, msg *coretypes.CapacityMessage, apiErr error, viol
 	}
 	if call.Err != nil {
 		res.Probes["plan_refused"]++
-		alreadyFilled := st == strategy.Fill && feasible && planned == 0
+		// FILL refuses legitimately (nothing to do) when the L nodes it would select - the
+		// eligible ones with the most instances - are all at the level already
+		alreadyFilled := false
+		if st == strategy.Fill && feasible && errors.Is(call.Err, coretypes.ErrAlreadyFilled) {
+			var cs []int
+			for _, n := range names {
+				if satAdd(infos[n].Count, infos[n].Capacity) >= need {
+					cs = append(cs, infos[n].Count)
+				}
+			}
+			sort.Sort(sort.Reverse(sort.IntSlice(cs)))
+			alreadyFilled = len(cs) >= L && cs[L-1] >= need
+		}
 		if feasible && !alreadyFilled {
 			viol("C02", "refused-although-feasible", st, fmt.Sprintf("refused (%v) although a plan exists: %s", call.Err, desc))
 		}
